@@ -5,6 +5,7 @@ package gvc
 
 import (
 	"fmt"
+	"go/types"
 	"strings"
 
 	"golang.org/x/tools/go/ssa"
@@ -41,6 +42,7 @@ func scanResult(name, family string, ok bool, detail string) *OblResult {
 func init() {
 	scanKinds["global_const_slice"] = scanGlobalConstSlice
 	scanKinds["global_newint"] = scanGlobalNewInt
+	scanKinds["handler_census"] = scanHandlerCensus
 }
 
 func (P *Program) ssaPkg(rel string) *ssa.Package {
@@ -174,4 +176,90 @@ func scanGlobalNewInt(P *Program, sp ScanSpec) []*OblResult {
 		return []*OblResult{scanResult(sp.Name, "F8", true, sp.Args["name"]+" = "+want)}
 	}
 	return []*OblResult{scanResult(sp.Name, "F8", false, fmt.Sprintf("%s is written by %v, contract requires exactly [%s]", sp.Args["name"], found, want))}
+}
+
+// handler_census (C03): every method of every generated MsgServer interface implemented by a
+// `msgServer` type in the loaded keeper packages is a message handler and must carry a contract with
+// exactly one authorisation tag — principal / governance / self_authenticating / stateless — and, for
+// principal and governance, at least one guard labelled C03_principal… / C03_governance… that ties
+// the state change to the message creator / the governance authority. A new message type therefore
+// fails the census until it is classified and its guard is proved.
+func scanHandlerCensus(P *Program, sp ScanSpec) []*OblResult {
+	var out []*OblResult
+	seen := 0
+	for _, pkg := range P.SSAPkgs {
+		if pkg == nil {
+			continue
+		}
+		obj := pkg.Pkg.Scope().Lookup("msgServer")
+		if obj == nil {
+			continue
+		}
+		// the MsgServer interface of the module's types package
+		var iface *types.Interface
+		for _, imp := range pkg.Pkg.Imports() {
+			// the module's own types package: x/<mod>/keeper -> x/<mod>/types
+			if imp.Path() != strings.TrimSuffix(pkg.Pkg.Path(), "/keeper")+"/types" {
+				continue
+			}
+			if o := imp.Scope().Lookup("MsgServer"); o != nil {
+				if it, ok := o.Type().Underlying().(*types.Interface); ok {
+					iface = it
+				}
+			}
+		}
+		if iface == nil {
+			continue
+		}
+		rel := strings.TrimPrefix(pkg.Pkg.Path(), ModPath+"/")
+		for i := 0; i < iface.NumMethods(); i++ {
+			m := iface.Method(i).Name()
+			seen++
+			name := fmt.Sprintf("%s.handler.%s.%s", sp.Name, rel, m)
+			var c *Contract
+			for _, recv := range []string{"(msgServer).", "(*msgServer)."} {
+				if cc, ok := P.Contracts[rel+"."+recv+m]; ok {
+					c = cc
+				}
+			}
+			if c == nil {
+				out = append(out, scanResult(name, "F8", false, "handler has no contract (no authorisation tag)"))
+				continue
+			}
+			var tags []string
+			for _, t := range []string{"principal", "governance", "self_authenticating", "stateless"} {
+				if _, ok := c.Flags[t]; ok {
+					tags = append(tags, t)
+				}
+			}
+			if len(tags) != 1 {
+				out = append(out, scanResult(name, "F8", false, fmt.Sprintf("handler must carry exactly one authorisation tag, has %v", tags)))
+				continue
+			}
+			need := ""
+			switch tags[0] {
+			case "principal":
+				need = "C03_principal"
+			case "governance":
+				need = "C03_governance"
+			case "self_authenticating":
+				need = "C03_self"
+			}
+			ok := need == ""
+			for _, cl := range c.Clauses {
+				if (cl.Kind == "guard" || cl.Kind == "ensures") && strings.Contains(cl.Label, need) {
+					ok = true
+				}
+			}
+			if !ok {
+				out = append(out, scanResult(name, "F8", false, "tag "+tags[0]+" without a guard labelled "+need+"…"))
+				continue
+			}
+			out = append(out, scanResult(name, "F8", true, tags[0]+": "+c.Flags[tags[0]]))
+		}
+	}
+	if seen == 0 {
+		out = append(out, scanResult(sp.Name+".handlers_found", "F8", false, "no MsgServer implementation found in the loaded packages"))
+	}
+	return out
 }
